@@ -17,13 +17,16 @@ RULE = ("2theta {0.5,5,20,45,60} deg (+ 5 more in thorough) x eta every 30 (15) 
         "p + t v, t > 0, v = (cos 2theta, -sin 2theta sin eta, sin 2theta cos eta); det_v equals v; the tilt matrix is checked against "
         "Rx.Ry.Rz; an independent ray/plane intersection gives the pixel. distinct_nontrivial = distinct (2theta, eta, tilt, distance, "
         "pixel size, offset) tuples with a non-zero tilt or offset.")
-ASSUMPTIONS = ["g-vector in the tools convention Gt = (2 pi / lambda)(v - x) as det_coor's formula demands", "tolerance 1e-9 x distance (positions), 1e-9 x distance/pixel size (pixels)"]
+ASSUMPTIONS = ["g-vector in the tools convention Gt = (2 pi / lambda)(v - x) as det_coor's formula demands",
+               "tolerance 1e-11 x distance (positions) and 1e-11 x distance/pixel size (pixels): observed noise is 1e-14, and a tilt of 3e-5 rad ignored "
+               "by a fast path moves the pixel by only ~1e-9 of that scale at 2theta = 0.5 deg"]
 
 
 def grids(tier):
+    # tilt alphabet: large tilts, zero, and a band of tiny tilts (cos(tilt) = 1 to within 1e-8 for |tilt| < 1.4e-4)
     if tier == "quick":
-        return [0.5, 5, 20, 45, 60], list(range(0, 360, 30)), [-0.3, 0.0, 0.3]
-    return [0.5, 1, 5, 10, 20, 30, 45, 55, 60, 0.51], list(range(0, 360, 15)), [-0.3, -0.1, 0.0, 0.1, 0.3]
+        return [0.5, 5, 20, 45, 60], list(range(0, 360, 30)), [-0.3, 0.0, 0.3, 1e-4, -3e-5]
+    return [0.5, 1, 5, 10, 20, 30, 45, 55, 60, 0.51], list(range(0, 360, 15)), [-0.3, -0.1, 0.0, 0.1, 0.3, 1e-4, -3e-5, 1e-6]
 
 
 def cases(tier, seed):
@@ -69,14 +72,14 @@ def check_case(case):
             w = lab - p
             t = float(w @ v)
             perp = float(np.linalg.norm(w - t * v))
-            r.check("on-ray", perp / L, 1e-9, key + ":on-ray", "detector_to_lab(pixel) lies on the ray from the grain along v", None, {"lab": lab, "perp": perp})
+            r.check("on-ray", perp / L, 1e-11, key + ":on-ray", "detector_to_lab(pixel) lies on the ray from the grain along v", None, {"lab": lab, "perp": perp})
             r.require(t > 0, key + ":forward", "the point lies in front of the grain (t > 0)", "> 0", t)
             # independent ray/plane intersection: detector plane through (L,0,0) spanned by R[:,1], R[:,2]
             nrm = R[:, 0]
             tt = float(nrm @ (np.array([L, 0, 0]) - p)) / float(nrm @ v)
             hit = p + tt * v - np.array([L, 0, 0])
             ref = [float(R[:, 1] @ hit) / py + yc, float(R[:, 2] @ hit) / pz + zc]
-            r.check("pixel-ref", max(abs(d2[0] - ref[0]), abs(d2[1] - ref[1])) / scale, 1e-9, key + ":pixel", "pixel = ray/plane intersection in detector coordinates", ref, d2)
+            r.check("pixel-ref", max(abs(d2[0] - ref[0]), abs(d2[1] - ref[1])) / scale, 1e-11, key + ":pixel", "pixel = ray/plane intersection in detector coordinates", ref, d2)
             if tx or ty or tz or any(off):
                 r.nontrivial.add(key.rsplit(":c=", 1)[0])
             r.states += 1
